@@ -7,6 +7,8 @@ from pathlib import Path
 
 VERIF = Path(__file__).resolve().parent.parent
 EXTRA = {  # seeds that other properties' checks should (also) catch
+    "C01-r2m1": ["C18", "C09"], "C04-r2m1": ["C13"], "C05-r2m1": ["C20", "C09"], "C06-r2m1": ["C09", "C20"], "C07-r2m1": ["C09"], "C07-r2m2": ["C18"],
+    "C08-r2m2": ["C09", "C01"], "C09-r2m1": ["C11", "C04"], "C09-r2m2": ["C18"], "C10-r2m1": ["C18"], "C14-r2m2": ["C15"], "C20-r2m1": ["C06"], "C15-r2m1": ["C09"],
     "C01-m1": ["C20", "C09"], "C02-m1": ["C20", "C09", "C06"], "C03-m1": ["C02"], "C04-m1": ["C11"],
     "C08-m2": ["C01"], "C09-m2": ["C13"], "C09-m1": ["C20"], "C13-m1": ["C09"], "C11-m1": ["C10"], "C11-m2": ["C10"], "C12-m2": ["C18", "C10"], "C15-m1": ["C02"], "C15-m2": ["C01", "C08"], "C17-m2": ["C10"],
 }
